@@ -268,7 +268,8 @@ pub fn run(tier: Tier) -> Report {
         total.incomplete.extend(p.incomplete);
     }
 
-    if !total.incomplete.is_empty() {
+    // ids that fail BEP42 are reported first; only a run without any is asked for full coverage of r
+    if !total.incomplete.is_empty() && total.bad.is_empty() {
         eprintln!(
             "machinery error: 400 draws did not cover all 8 values of r for {:?}",
             total.incomplete[0]
